@@ -318,7 +318,10 @@ def run_history(sat, hist, on_violation, count=None):
         args = mkargs(q, sat.epoch)
         a0 = fp(args)
         t0 = fp(orb.tle.__dict__)
-        res = call(orb, q, args)
+        try:
+            res = _guarded(lambda: call(orb, q, args), 20.0)
+        except _Timeout:
+            res = Runaway("no result after 20 s (fresh object: %s)" % ref[1])
         got = fp(res)
         if count:
             count()
@@ -355,12 +358,17 @@ class SchedulerError(Exception):
     pass
 
 
+class Runaway(BaseException):
+    """raised inside a thread that executes far more source lines than any fresh call (the code under test does not
+    terminate under this schedule); an outcome, compared like any other"""
+
+
 class Sched:
     """Token-passing scheduler. plan = [[tid, n], ...]: thread tid executes n source lines (line events in frames of
     pyorbital/orbital.py) and is pre-empted BEFORE its next one; when the plan is exhausted (or a segment's thread has
     finished) the unfinished threads run to completion in thread order."""
 
-    def __init__(self, fns, plan, filename, record_lines=False, timeout=60.0):
+    def __init__(self, fns, plan, filename, record_lines=False, timeout=60.0, max_lines=1500000):
         self.fns = fns
         self.n = len(fns)
         self.plan = [[int(a), int(b)] for a, b in plan]
@@ -372,6 +380,8 @@ class Sched:
         self.lines = [0] * self.n
         self.linelog = [[] for _ in fns] if record_lines else None
         self.timeout = timeout
+        self.max_lines = max_lines
+        self.runaway = False
         self.abort = None
         self.idents = {}
         self.switches = 0
@@ -409,8 +419,13 @@ class Sched:
                     s.release()
 
     def on_line(self, i, frame):
+        if self.runaway:
+            raise Runaway("stopped: another thread ran away")
         if self.abort is not None:
             return
+        if self.lines[i] > self.max_lines:
+            self.runaway = True
+            raise Runaway("no result after %d source lines" % self.lines[i])
         while True:
             seg = self._active()
             if seg is None:
@@ -418,6 +433,8 @@ class Sched:
                 break
             if seg[0] != i:
                 self._handover(i, False)
+                if self.runaway:
+                    raise Runaway("stopped: another thread ran away")
                 if self.abort is not None:
                     return
                 continue
@@ -634,6 +651,8 @@ def concurrency(ctx, sats, judge, spy, mode, scale=1):
     runs = 0
 
     def go(sat, qs, plan, label, warm=None):
+        if len(ctx.violations) + len(ctx.disagreements) > 25:
+            return                                              # enough evidence; do not pile up
         r = run_schedule(sat, qs, plan, spy=spy, warm=warm)
         judge(sat, qs, plan, r, warm)
         ctx.bump("schedules", label)
